@@ -216,6 +216,7 @@ func runC09(c *Check) {
 	ruleWakeChannelBuffered(c, p, "C09-R13", "RetrieveLoop")
 	c.MinInstances("C09-R13", 1)
 	ruleNilGuard(c, p)
+	ruleBlobBytesBoundsChecked(c, p, "C09-R14")
 	ruleHandOffNotUnderDeadline(c, p, "C09-R9")
 	ruleMetricsPreBound(c, p, "C09-R10", []*ssa.Function{p.MustFunc(mgrM("RetrieveLoop"))}, 6)
 	c.MinInstances("C09-R10", 1)
@@ -1492,4 +1493,85 @@ func rejectAltsPerEdge(p *Prog, fn *ssa.Function) []FactSet {
 		}
 	}
 	return out
+}
+
+// ruleBlobBytesBoundsChecked (C09-R14 = C03-R8 = C12-R12): a blob fetched from the DA layer is
+// arbitrary bytes of arbitrary length (only the empty blob is filtered out). In the scan, taking
+// a fixed-size prefix, suffix or element of it (bz[:8], bz[4], bz[len(bz)-2:]) is behind a
+// comparison on its length; otherwise a blob shorter than that panics the scan goroutine — on
+// every restart again, at the same DA height.
+func ruleBlobBytesBoundsChecked(c *Check, p *Prog, rule string) {
+	c.Doc(rule, "GA: in the DA scan (RetrieveLoop and what it calls in the repository, 6 deep) every slicing or indexing of a blob's raw bytes is dominated by a relational test on that blob's length; slicing by proto.Unmarshal and the decoders of the wire types is theirs (C12-R4).")
+	rl := p.MustFunc(mgrM("RetrieveLoop"))
+	g := BuildECFG(p, rl, ExpandOpts{MaxDepth: 6})
+	c.NoteGraph(g)
+	isBlob := func(t *Term) bool {
+		if t == nil || t.Op != "index" || len(t.Args) != 2 || t.Args[0].Op != "field" || t.Args[0].Name != "Data" || len(t.Args[0].Args) == 0 {
+			return false
+		}
+		b := t.Args[0].Args[0]
+		return b.V != nil && strings.Contains(b.V.Type().String(), "ResultRetrieve")
+	}
+	n, nBlobUses := 0, 0
+	seen := map[string]bool{}
+	for _, nd := range g.Nodes {
+		if !g.Live()[nd] || nd.Kind != NInstr {
+			continue
+		}
+		pk := fnPkg(nd.Ctx.Fn)
+		if pk == nil || pk.Pkg.Path() != rootPath+"/block" {
+			continue
+		}
+		var x ssa.Value
+		what := ""
+		switch in := nd.In.(type) {
+		case *ssa.Slice:
+			if in.Low != nil || in.High != nil {
+				x, what = in.X, "sliced"
+			}
+		case *ssa.IndexAddr:
+			x, what = in.X, "indexed"
+		case *ssa.Index:
+			x, what = in.X, "indexed"
+		}
+		if x == nil {
+			continue
+		}
+		if st, ok := x.Type().Underlying().(*types.Slice); !ok {
+			continue
+		} else if bt, ok := st.Elem().Underlying().(*types.Basic); !ok || bt.Kind() != types.Byte {
+			continue
+		}
+		base := TermOf(x, nd.Ctx)
+		if os.Getenv("VERIF_DEBUG_C09") != "" {
+			fmt.Fprintf(os.Stderr, "DBG blob? %s %s\n", p.InstrPos(nd.In), trunc(base.String(), 200))
+		}
+		if !isBlob(base) {
+			continue
+		}
+		nBlobUses++
+		key := p.InstrPos(nd.In)
+		if seen[key] {
+			continue
+		}
+		seen[key] = true
+		n++
+		guarded := false
+		bs := "len(" + base.String() + ")"
+		for _, f := range g.FactsAt(nodeSet([]*Node{nd}), 2) {
+			t := f.Cond
+			if t.Op == "bin" && (t.Name == "<" || t.Name == "<=" || t.Name == ">" || t.Name == ">=") && strings.Contains(t.String(), bs) {
+				guarded = true
+			}
+		}
+		inst := fnShort(nd.Ctx.Fn) + " ⟂ blob bytes " + what + " under a length test @" + key
+		if guarded {
+			c.OK(rule, inst, fnName(nd.Ctx.Fn), key, "dominated by a comparison on the blob's length", true)
+		} else {
+			c.Bad(rule, inst, fnName(nd.Ctx.Fn), key, "the raw bytes of a DA blob are "+what+" without a dominating test on their length: a junk blob shorter than that panics the scan goroutine (no recover), and after the restart the scan meets the same blob at the same DA height again — the node never gets past it", nil)
+		}
+	}
+	if n == 0 {
+		c.OK(rule, "scan ⟂ blob bytes only handed on whole", fnName(rl), p.Pos(rl.Pos()), "no function of the block package slices or indexes a blob's raw bytes in the scan", true)
+	}
 }
